@@ -67,10 +67,17 @@ static void fd_dispatch(struct qb_loop_item *item, enum qb_loop_priority p)
 	else job_dispatch(item, p);
 }
 static void injected_cb(void *data) { (void)data; injected_ran_iter = iter; }
+static int fd_polls;
 static int32_t fd_poll(struct qb_loop_source *s, int32_t ms)
 {
 	(void)ms;
 	int n = 0;
+	/* the fd source is polled exactly once per loop iteration, after the job and timer sources: iterations are
+	 * counted here and "pending work" is sampled here, just before the levels are served */
+	if (fd_polls > 0) iter++;
+	fd_polls++;
+	if (iter >= ITERS) { qb_loop_stop(&L); return 0; }
+	for (int p = 0; p < 3; p++) pending_at_start[iter][p] = level_pending(p);
 	for (int p = 0; p < 3; p++) {
 		if (!fds_ready[p]) continue;
 		for (int i = 0; i < NFD; i++) {
@@ -109,11 +116,8 @@ static void job_cb(void *data)
 /* end of an iteration = the next call of the job source's poll; count there */
 static int32_t job_poll_count(struct qb_loop_source *s, int32_t ms)
 {
-	static int first = 1;
-	if (!first) iter++;
-	first = 0;
-	if (iter >= ITERS) { qb_loop_stop(&L); return 0; }
-	return job_poll_wrap(s, ms);
+	(void)s;
+	return realjobs->poll(realjobs, ms);          /* the real get_more_jobs */
 }
 
 #ifndef SC_BASE
